@@ -452,6 +452,28 @@ func ruleA18Tags(r *Run, p *Prog, encFns []*ssa.Function) {
 			want := map[byte]int{0xf9: 3, 0xfa: 5, 0xfb: 9}[s[0]]
 			okc := want != 0 && len(s) == want
 			r.Ob("A18", FnName(f)+"/float-literal", p.Pos(c.Pos()), okc, true, tern(okc, "literal float item has the length its header announces", fmt.Sprintf("literal simple/float item % x has %d bytes, its header announces %d", s, len(s), want)))
+			// bit-exactness: a literal stands for a whole class of values, so it may only be chosen by a
+			// test that fixes the class the literal encodes (math.IsNaN / math.IsInf), never by a float
+			// comparison — `v == 0` is true for -0.0 as well, `v < c` for a range
+			classOK, cmpBad := false, ""
+			for _, cm := range necessaryCmps(f, c) {
+				for _, side := range []ssa.Value{cm.X, cm.Y} {
+					if call, isCall := side.(*ssa.Call); isCall && (isCallTo(&call.Call, "math.IsNaN") || isCallTo(&call.Call, "math.IsInf")) {
+						other := cm.Y
+						if side == cm.Y {
+							other = cm.X
+						}
+						if bv, isB := constBool(other); isB && ((cm.Op == token.EQL && bv) || (cm.Op == token.NEQ && !bv)) {
+							classOK = true
+						}
+					}
+				}
+				if isFloatType(cm.X.Type()) || isFloatType(cm.Y.Type()) {
+					cmpBad = cmpString(cm)
+				}
+			}
+			okb := classOK && cmpBad == ""
+			r.Ob("A18", FnName(f)+"/float-literal-class", p.Pos(c.Pos()), okb, true, tern(okb, "the literal is chosen by math.IsNaN/IsInf, which fixes the class it encodes", "a literal float item is emitted under "+tern(cmpBad != "", "the float comparison "+cmpBad, "no IsNaN/IsInf test")+": values with another bit pattern (e.g. -0.0 when testing == 0) are written as this literal, so floats are no longer bit-exact"))
 		})
 	}
 	if nTags < 6 {
@@ -500,4 +522,9 @@ func foldInt(v ssa.Value, depth int) (int64, bool) {
 		}
 	}
 	return 0, false
+}
+
+func isFloatType(t types.Type) bool {
+	b, ok := t.Underlying().(*types.Basic)
+	return ok && b.Info()&types.IsFloat != 0
 }
